@@ -342,9 +342,9 @@ func main() {
 		Assumptions: []string{"refrv decode table", "refir evaluator", "image built through the verif hook elf.VerifNewMemory"},
 		Cases: func(t string) int {
 			if t == "thorough" {
-				return 300000
+				return 3000000
 			}
-			return 15000
+			return 40000
 		},
 		Floor: func(t string) int {
 			if t == "thorough" {
